@@ -327,6 +327,81 @@ func c12LowerByte(fd *ast.FuncDecl) (string, bool) {
 	return fmt.Sprintf("def lowerByte (c : UInt8) : UInt8 := if %s then %s else %s\n\n", cond, a, b), true
 }
 
+// ---- round 4b: the STATE of the types (struct fields) and the inventory of functions per file
+
+// c12StructFields: the fields of struct type `name` in source order, "field type" each (an embedded
+// field is its type alone).  What an instance can remember between two calls is exactly this list.
+func c12StructFields(c *Ctx, rel, name string) ([]string, bool) {
+	f := c.File(rel)
+	if f == nil {
+		return nil, false
+	}
+	for _, d := range f.Decls {
+		gd, ok := d.(*ast.GenDecl)
+		if !ok {
+			continue
+		}
+		for _, s := range gd.Specs {
+			ts, ok := s.(*ast.TypeSpec)
+			if !ok || ts.Name.Name != name {
+				continue
+			}
+			st, ok := ts.Type.(*ast.StructType)
+			if !ok {
+				return nil, false
+			}
+			var out []string
+			for _, fl := range st.Fields.List {
+				t := strings.Join(strings.Fields(c.Print(fl.Type)), " ")
+				if len(fl.Names) == 0 {
+					out = append(out, t)
+				}
+				for _, n := range fl.Names {
+					out = append(out, n.Name+" "+t)
+				}
+			}
+			return out, true
+		}
+	}
+	return nil, false
+}
+
+// c12Decls: every function and method a file declares ("Recv.Name" for methods), in source order,
+// and its package-level variables – a helper or a package-level cache added next to the mirrored
+// functions shows up here even when no mirrored function changes its text.
+func c12Decls(c *Ctx, rel string) ([]string, bool) {
+	f := c.File(rel)
+	if f == nil {
+		return nil, false
+	}
+	var out []string
+	for _, d := range f.Decls {
+		switch x := d.(type) {
+		case *ast.FuncDecl:
+			n := x.Name.Name
+			if x.Recv != nil && len(x.Recv.List) > 0 {
+				t := x.Recv.List[0].Type
+				if st, ok := t.(*ast.StarExpr); ok {
+					t = st.X
+				}
+				n = c.Print(t) + "." + n
+			}
+			out = append(out, n)
+		case *ast.GenDecl:
+			if x.Tok == token.VAR {
+				for _, s := range x.Specs {
+					if vs, ok := s.(*ast.ValueSpec); ok {
+						for _, nm := range vs.Names {
+							out = append(out, "var "+nm.Name)
+						}
+					}
+				}
+			}
+		}
+	}
+	return out, true
+}
+
 func c12EmitList(sb *strings.Builder, name string, l []string, ok bool) {
 	if !ok {
 		sb.WriteString(untranslatable(name) + "\n")
@@ -402,6 +477,17 @@ func init() {
 		c12EmitList(&sb, "findReceiverCalls", calls, ok)
 		w, _, ok = c12Access(c, c.Func(poolFile, "IntPool.Get"))
 		c12EmitList(&sb, "poolGetReceiverWrites", w, ok)
+		// round 4b: state and inventory
+		for _, t := range []struct{ def, file, typ string }{
+			{"instanceFields", file, "DissectInstance"}, {"dissectFields", file, "Dissect"},
+			{"tokenFields", file, "token"}, {"intPoolFields", poolFile, "IntPool"}} {
+			fl, ok := c12StructFields(c, t.file, t.typ)
+			c12EmitList(&sb, t.def, fl, ok)
+		}
+		for _, t := range []struct{ def, file string }{{"dissectDecls", file}, {"caseDecls", caseFile}, {"intPoolDecls", poolFile}} {
+			dl, ok := c12Decls(c, t.file)
+			c12EmitList(&sb, t.def, dl, ok)
+		}
 		if lb, ok := c12LowerByte(c.Func(caseFile, "lowerByte")); ok {
 			sb.WriteString(lb)
 		} else {
